@@ -321,31 +321,98 @@ def _conn(run, P, only=None):
 
 
 def _helper_obligations(run, P):
+    """_replace_fill_values: the mask is (array == original_fill) or isnan(array) on the ORIGINAL array, the array is converted with new_dtype, new_fill is written
+    through that mask and the array is returned.  The mask may be computed inline or by a same-module helper (parameters substituted).  A definite counter-fact
+    (mask compares something else, other value stored, no NaN arm, new_dtype never used to produce the array) is a violation; an unrecognised idiom is incomplete."""
     f = P.func("uxarray/grid/connectivity.py:_replace_fill_values")
-    src = ast.unparse(f.node)
     params = f.params()
     c = f"{f.key}:semantics"
-    # mask is computed from the ORIGINAL array against original_fill (NaN aware) and the store writes new_fill through that mask after the cast
-    mask_def = None
-    nan_branch = False
+    arr, ofill, nfill, ndt = params[:4]
+
+    def classify(expr, env, depth=0):
+        """-> set of {'eq','nan','bad:<why>','unknown:<what>'} for a mask-valued expression; env maps helper parameter names to caller expressions (normalised)"""
+        sub = lambda e: env.get(norm(e), norm(e))
+        if isinstance(expr, ast.Compare) and len(expr.ops) == 1:
+            l, r = sub(expr.left), sub(expr.comparators[0])
+            if isinstance(expr.ops[0], ast.Eq):
+                return {"eq"} if {l, r} == {arr, ofill} else {f"bad:mask compares {l} == {r}"}
+            return {f"bad:mask uses {type(expr.ops[0]).__name__} on {l}, {r}"}
+        if isinstance(expr, ast.Call):
+            d = dotted(expr.func) or [""]
+            if d[-1] == "isnan" and expr.args:
+                a0 = sub(expr.args[0])
+                return {"nan"} if a0 == arr else {f"bad:isnan of {a0}"}
+            if d[-1] in ("logical_or", "bitwise_or") and len(expr.args) == 2:
+                return classify(expr.args[0], env, depth) | classify(expr.args[1], env, depth)
+            if len(d) == 1 and depth < 2:
+                h = P.try_func(f"uxarray/grid/connectivity.py:{d[0]}")
+                if h is not None:
+                    hp = h.params()
+                    henv = {hp[i]: sub(a) for i, a in enumerate(expr.args) if i < len(hp)}
+                    henv.update({k.arg: sub(k.value) for k in expr.keywords if k.arg})
+                    out = set()
+                    local = {}
+                    for st in iter_stmts(h.node.body):
+                        if isinstance(st, ast.Assign) and isinstance(st.targets[0], ast.Name):
+                            local.setdefault(st.targets[0].id, []).append(st.value)
+                    rets = [st.value for st in iter_stmts(h.node.body) if isinstance(st, ast.Return) and st.value is not None]
+                    if not rets:
+                        return {f"unknown:{d[0]} returns nothing"}
+                    for r in rets:
+                        if isinstance(r, ast.Name) and r.id in local:
+                            for v in local[r.id]:
+                                out |= classify(v, henv, depth + 1)
+                        else:
+                            out |= classify(r, henv, depth + 1)
+                    return out
+            return {f"unknown:{norm(expr)[:60]}"}
+        if isinstance(expr, ast.BinOp) and isinstance(expr.op, ast.BitOr):
+            return classify(expr.left, env, depth) | classify(expr.right, env, depth)
+        if isinstance(expr, ast.IfExp):
+            return classify(expr.body, env, depth) | classify(expr.orelse, env, depth)
+        return {f"unknown:{norm(expr)[:60]}"}
+
+    defs = {}
     for st in iter_stmts(f.node.body):
-        if isinstance(st, ast.Assign) and isinstance(st.targets[0], ast.Name) and isinstance(st.value, ast.Compare) and isinstance(st.value.ops[0], ast.Eq):
-            if {norm(st.value.left), norm(st.value.comparators[0])} == {params[0], params[1]}:
-                mask_def = st.targets[0].id
-        if isinstance(st, ast.Assign) and isinstance(st.value, ast.Call) and (dotted(st.value.func) or [""])[-1] == "isnan" and norm(st.value.args[0]) == params[0]:
-            nan_branch = True
-    store_ok = False
-    cast_ok = False
-    for st in iter_stmts(f.node.body):
-        if isinstance(st, ast.Assign) and isinstance(st.targets[0], ast.Subscript) and norm(st.targets[0].value) == params[0] and isinstance(st.targets[0].slice, ast.Name) and st.targets[0].slice.id == mask_def and norm(st.value) == params[2]:
-            store_ok = True
-        if isinstance(st, ast.Assign) and norm(st.targets[0]) == params[0] and isinstance(st.value, ast.Call) and isinstance(st.value.func, ast.Attribute) and st.value.func.attr == "astype" and norm(st.value.args[0]) == params[3]:
-            cast_ok = True
-    ret_ok = any(isinstance(st, ast.Return) and norm(st.value) == params[0] for st in iter_stmts(f.node.body))
-    if mask_def and nan_branch and store_ok and cast_ok and ret_ok:
-        run.holds("F-CONN/helper", c, where(f), "mask = (array == original_fill | isnan), cast to new_dtype, array[mask] = new_fill, array returned")
+        if isinstance(st, ast.Assign) and isinstance(st.targets[0], ast.Name):
+            defs.setdefault(st.targets[0].id, []).append(st.value)
+    stores = [st for st in iter_stmts(f.node.body) if isinstance(st, ast.Assign) and isinstance(st.targets[0], ast.Subscript) and norm(st.targets[0].value) == arr]
+    bad, unknown = [], []
+    kinds = set()
+    if not stores:
+        unknown.append(f"no store {arr}[mask] = {nfill} found")
+    for st in stores:
+        if norm(st.value) != nfill:
+            bad.append(f"{norm(st)[:70]} stores something other than {nfill}")
+        idx = st.targets[0].slice
+        vals = defs.get(idx.id, []) if isinstance(idx, ast.Name) else [idx]
+        if not vals:
+            unknown.append(f"mask {norm(idx)} has no local definition")
+        for v in vals:
+            kinds |= classify(v, {})
+    bad += sorted(k[4:] for k in kinds if k.startswith("bad:"))
+    unknown += sorted(k[8:] for k in kinds if k.startswith("unknown:"))
+    if stores and not unknown and not bad:
+        if "eq" not in kinds:
+            bad.append(f"mask never compares {arr} == {ofill}")
+        if "nan" not in kinds:
+            bad.append(f"mask has no isnan({arr}) arm: a NaN fill value would never be matched")
+    # conversion: some assignment to the array uses new_dtype
+    conv = [v for v in defs.get(arr, []) if any(isinstance(n_, ast.Name) and n_.id == ndt for n_ in ast.walk(v))]
+    if not conv:
+        bad.append(f"{arr} is never converted using {ndt}")
+    elif not any(isinstance(v, ast.Call) and isinstance(v.func, ast.Attribute) and v.func.attr == "astype" and v.args and norm(v.args[0]) == ndt and norm(v.func.value) == arr for v in conv) \
+            and not any(isinstance(v, ast.Call) and (dotted(v.func) or [""])[-1] in ("asarray", "array") and any(k.arg == "dtype" and norm(k.value) == ndt for k in v.keywords) for v in conv):
+        unknown.append(f"conversion {norm(conv[0])[:60]} not recognised")
+    rets = [st for st in iter_stmts(f.node.body) if isinstance(st, ast.Return)]
+    if not any(st.value is not None and norm(st.value) == arr for st in rets):
+        (bad if all(st.value is None or isinstance(st.value, (ast.Name, ast.Constant)) for st in rets) else unknown).append(f"{arr} is not what is returned")
+    if bad:
+        run.violation("F-CONN/helper", c, where(f), "_replace_fill_values no longer has the semantics the reader summaries rely on: " + "; ".join(bad))
+    elif unknown:
+        run.incomplete("F-CONN/helper", c, where(f), "idiom not recognised: " + "; ".join(unknown))
     else:
-        run.violation("F-CONN/helper", c, where(f), f"_replace_fill_values no longer has the semantics the reader summaries rely on (mask={mask_def}, nan={nan_branch}, store={store_ok}, cast={cast_ok}, return={ret_ok})")
+        run.holds("F-CONN/helper", c, where(f), "mask = (array == original_fill | isnan(array)), converted with new_dtype, array[mask] = new_fill, array returned")
 
 
 # ------------------------------------------------------------------------------------------------ roles
